@@ -61,7 +61,9 @@ def input_resource(draw, name, sizes=(0, 1, 2, 3, 5), types=None):
 @st.composite
 def input_package(draw, min_res=1, max_res=3, sizes=(0, 1, 2, 3, 5), types=None):
     n = draw(st.integers(min_res, max_res))
-    return [draw(input_resource('res%d' % (i + 1), sizes, types)) for i in range(n)]
+    # named like the automatic names of appended iterables (res_<n>), so that deletions leave gaps that later
+    # appends may collide with
+    return [draw(input_resource('res_%d' % (i + 1), sizes, types)) for i in range(n)]
 
 
 # ----------------------------------------------------------------------------- user callables
@@ -292,6 +294,10 @@ def build(spec, env):
         return d.update_schema(sel, missingValues=['', 'NA'])
     if k == 'update_package':
         return d.update_package(title=spec['title'])
+    if k == 'iterable' and spec.get('big'):
+        lv = {'int': lambda j: j, 'str': lambda j: 'v%d' % j, 'float': lambda j: j / 4}[spec['late_type']]
+        rows = [{'id': j + 1, 's': 'x%d' % (j % 5), 'late': None if j < 100 else lv(j)} for j in range(spec['big'])]
+        return rows if spec.get('as') != 'generator' else (r for r in rows)
     if k == 'iterable':
         return copy.deepcopy(spec['rows']) if spec.get('as') != 'generator' else (r for r in copy.deepcopy(spec['rows']))
     if k == 'sources':
@@ -486,7 +492,12 @@ def _draw_spec(draw, state, kinds, counter):
         need(names)
         i = state.index(res)
         tgt = draw(st.sampled_from(state[i + 1:]))
-        key = draw(st.sampled_from(['id', 'g', 'g']))
+        key = draw(st.sampled_from(['id', 'g', 'g', '#']))
+        if key == '#':
+            fsrc = draw(st.sampled_from(res['fields']))
+            return {'k': k, 'source': rn, 'source_key': ['#'], 'target': tgt['name'], 'target_key': ['#'],
+                    'fields': {'jf%d' % n: {'name': fsrc['name'], 'aggregate': draw(st.sampled_from(['first', 'last', 'count', 'array']))}},
+                    'mode': draw(st.sampled_from(['inner', 'half-outer', 'full-outer'])), 'source_delete': draw(st.booleans())}
         need(key in names and any(f['name'] == key for f in tgt['fields']))
         # well-typed join: both key fields have the same type
         need({f['type'] for f in res['fields'] if f['name'] == key} == {f['type'] for f in tgt['fields'] if f['name'] == key})
@@ -508,6 +519,10 @@ def _draw_spec(draw, state, kinds, counter):
         return {'k': k, 'res': sel}
     if k == 'update_package':
         return {'k': k, 'title': 'P%d' % n}
+    if k == 'iterable' and draw(st.integers(0, 5)) == 0:
+        # longer than the 100-row inference sample, with a column that only gets values after the sample
+        return {'k': k, 'big': draw(st.sampled_from([101, 120])), 'late_type': draw(st.sampled_from(['int', 'str', 'float'])),
+                'as': draw(st.sampled_from(['list', 'generator']))}
     if k in ('iterable', 'sources'):
         nr = draw(st.integers(0, 3))
         rows = [{'id': j + 1, 's': draw(st.sampled_from(['x', 'y', 'zz'])), 'q': draw(st.integers(0, 5))} for j in range(nr)]
@@ -597,11 +612,25 @@ def programs(draw, min_len=1, max_len=6, kinds=None, pkg=None, favour_mutators=T
                 kind = draw(st.sampled_from(mut))
                 pos -= 1
         spec = draw(draw_spec(state, [kind], counter))
+        if favour_mutators and steps and steps[-1]['k'] == 'join' and not steps[-1]['source_delete'] \
+                and 'row_fn' in kinds and draw(st.booleans()):
+            # the source stays in the package: edit, in place, exactly the field the join aggregated
+            j = steps[-1]
+            fname = list(j['fields'].values())[0]['name']
+            ftype = next((f['type'] for r in state if r['name'] == j['source'] for f in r['fields'] if f['name'] == fname), None)
+            if ftype in ('integer', 'string'):
+                spec = {'k': 'row_fn', 'fn': 'inc_int' if ftype == 'integer' else 'upper', 'field': fname,
+                        'form': draw(st.sampled_from(FORMS))}
         if spec is None:
             continue
         new_desc = simulate(spec, descriptor, ctx)
         ctx.clean_case()
         if new_desc is None:
+            if spec['k'] in ('iterable', 'sources', 'load_csv'):
+                # these specs are valid by construction (they bring their own data): a failure is the code's,
+                # not the draw's - keep the step so that the check sees it, and end the program here
+                steps.append(spec)
+                break
             continue
         steps.append(spec)
         descriptor = new_desc
